@@ -4,7 +4,7 @@ pid=$1; tier=${2:-quick}
 for d in /verif/seeded/$pid-*; do
   [ -d "$d" ] || continue
   git -C /repo apply $d/patch.diff || { echo "$d: patch does not apply"; continue; }
-  out=$(cd /verif && timeout 1800 ./check $pid --tier $tier 2>&1); rc=$?
+  out=$(cd /verif && VERIF_EVIDENCE_DIR=/tmp/verif_seeded_evidence timeout 1800 ./check $pid --tier $tier 2>&1); rc=$?
   git -C /repo checkout -- .; python3 /verif/extract/run.py
   echo "== $(basename $d): exit=$rc"
   echo "$out" | grep -E "^check|BROKEN|failing input|VIOLATION|KNOWN|internal" | head -8
